@@ -27,7 +27,9 @@ class C12(SessionCheck):
                     if tier == 'quick' and tr in ('tls', 'ssh') and (infl or how == 'with'):
                         continue
                     out.append({'kind': 'e2e', 'life': True, 'sc': {'mode': 'close', 'transport': tr, 'how': how, 'inflight': infl,
-                                                                     'profile': rng.choice(SG.PROFILES)}})
+                                                                     'profile': rng.choice(SG.PROFILES),
+                                                                     # half of the sessions carry an application listener that unregisters itself on error
+                                                                     'oneshot_listener': (len(out) % 2 == 0)}})
             out.append({'kind': 'e2e', 'life': True, 'sc': {'mode': 'close', 'transport': tr, 'how': 'with', 'no_close_reply': True}})
             # the server REFUSES <close-session> with an rpc-error (RFC 6241 7.8 allows it): the client side is released all the same
             if tier == 'thorough' or tr == 'unix':
